@@ -106,6 +106,17 @@ def check_algo(case):
                         return Outcome(violation={"clause": r[0], "msg": r[1], "round": rnd}, classes=classes, rounds=rnd)
         except Exception as e:  # noqa: BLE001 - totality belongs to C01
             return Outcome(aborted="exception:" + type(e).__name__, classes=classes)
+        # the recommendation call is part of a run (VROOM expands cells in it): the tree must survive it as well
+        try:
+            s.last_point()
+            queried = True
+        except Exception:  # noqa: BLE001 - e.g. open finding D11
+            queried = False
+        if queried:
+            for rec in s.recs:
+                r = tree_consistent(rec.part)
+                if r:
+                    return Outcome(violation={"clause": r[0], "msg": "after get_last_point(): " + r[1], "round": case["T"] + 1}, classes=classes, rounds=case["T"])
         ooo = any(not ev["newlayer"] for ev in s.split_log)
         deep = max((len(rec.part.get_node_list()) for rec in s.recs), default=0)
         if ooo:
